@@ -443,10 +443,16 @@ pub fn shard_run(tier: &str, seed: u64, replay_case: Option<usize>, shard: Shard
         let mut attempt = 0;
         loop {
             attempt += 1;
-            let Some(cfg) = gen_cfg(&mut rng) else {
+            let Some(mut cfg) = gen_cfg(&mut rng) else {
                 out.errors.push("no free port".into());
                 break;
             };
+            // the unusual directory names are dealt out in turn (every other configuration), so that a
+            // run covers all of them whatever the seed
+            cfg.dir_name = if i % 2 == 1 { DIR_NAMES[((i / 2) + seed as usize) % DIR_NAMES.len()].to_string() } else if i % 4 == 0 { "data".to_string() } else { cfg.dir_name.clone() };
+            if cfg.occupied.is_some() && cfg.dir_name != "data" {
+                cfg.occupied = None;
+            }
             match run_cfg(&cfg, &bin, &mut rng, &mut cov) {
                 Ok(None) => {
                     out.executed += 1;
